@@ -11,7 +11,7 @@ use tls_parser::*;
 
 pub const RULE: &str = "for each of 33 self-delimiting parsers (records, handshake, the three extension dispatchers and the 16 single-purpose extension parsers, SCT, DH/EC/signature): reference encodings (and their single length-field corruptions 0/1/true-1/true+1/max, and byte-level mutations) x suffixes {1 byte, 64 random bytes, another valid structure of the same kind, the same structure again, more than 64 KiB, more than 4 GiB}; oracle: value(p(b||x)) == value(p(b)) by PartialEq, remainder(p(b||x)) is the slice [consumed, end) of the same buffer by address, an accepted structure consumes exactly its declared length (computed by an independent calculator), outcome class equal whenever b already holds that declared length, every non-empty slice reachable from the value lies inside [input, input+consumed). Plus defragmenter histories (slices of unbuffered results inside the caller's record, of defragmented results inside the hooked buffer). distinct_nontrivial = distinct (parser, input kind, corruption kind, suffix kind, outcome class, length class) tuples";
 pub const ASSUMPTIONS: &[&str] = &[
-    "addresses of empty slices and empty remainders are not judged",
+    "addresses of empty slices inside values are not judged; the remainder of these self-delimiting parsers IS judged by address even when empty (it must be the end of the input)",
     "TlsExtension::PskExchangeModes(Vec<u8>) is an owned copy by design (not a slice)",
     "class stability is judged only when the independent calculator can determine the declared length from b",
 ];
@@ -86,8 +86,8 @@ macro_rules! locality {
             let mut bad: Option<(&'static str, String)> = None;
             if let Ok((rem1, v1)) = &r1 {
                 let consumed = b.len() - rem1.len();
-                if !o1.rem_is_suffix(b, consumed) {
-                    bad = Some(("remainder-not-a-suffix-of-input", String::new()));
+                if !o1.rem_is_suffix_strict(b, consumed) {
+                    bad = Some(("remainder-not-a-suffix-of-input", format!("consumed {} of {}; remainder address is not input+consumed", consumed, b.len())));
                 }
                 if let Some(d) = $decl(b) {
                     if consumed != d {
